@@ -2,6 +2,7 @@ package main
 
 import (
 	"fmt"
+	"strings"
 	"go/token"
 	"go/types"
 	"math"
@@ -496,6 +497,20 @@ func (fr *frame) convert(x *ssa.Convert, g *Term) Value {
 				return StringV{b: []*Term{Extract(t, 7, 0)}, n: BV(IntW, 1)}
 			case fb.Info()&types.IsFloat != 0 || tb.Info()&types.IsFloat != 0:
 				t := v.(*Term)
+				if t.op == "uf" && strings.HasPrefix(t.name, "durfloat.") && tb.Info()&types.IsInteger != 0 {
+					// int64(d.Hours()) etc.: the float quotient truncates to q-1, q or q+1 where q = d / unit, and to exactly q
+					// when the remainder is 0 (justified by the floating-point lemma of DESIGN.md section 4)
+					unit := map[string]uint64{"Hours": 3600e9, "Minutes": 60e9, "Seconds": 1e9}[strings.TrimPrefix(t.name, "durfloat.")]
+					d := t.args[0]
+					u := BV(64, unit)
+					q := BinBV("bvsdiv", d, u)
+					r := BinBV("bvsrem", d, u)
+					fr.e.selectN++
+					x := Var(fmt.Sprintf("$durtrunc%d", fr.e.selectN), 64)
+					c := And(Cmp("bvsle", BinBV("bvsub", q, BV(64, 1)), x), Cmp("bvsle", x, BinBV("bvadd", q, BV(64, 1))), Imp(Eq(r, BV(64, 0)), Eq(x, q)))
+					fr.e.assumes = append(fr.e.assumes, Imp(g, c))
+					return Resize(x, basicWidth(tb), true)
+				}
 				if t.konst && fb.Info()&types.IsInteger != 0 {
 					return floatConst(float64(signed(t.val, t.w)))
 				}
